@@ -37,6 +37,7 @@ func runC15(c *Ctx) {
 	c.rule("U8", "ValidateEmbedded calls Validate() on every field of struct kind that implements Validator, whatever the field holds, and returns its error", 1)
 	c.rule("U6", "names with an empty prefix: prefix and separator are joined only where the prefix was found non-empty", 2)
 	c.rule("U7", "structure keys are linked to flag keys without prefix removal", 1)
+	c.rule("U17", "in package config no value other than a constant is used as the set of characters of strings.Trim / TrimLeft / TrimRight: a prefix is removed as a prefix", 0)
 	c.rule("U5", "a prefix is tested and removed in the letter case of the string it is removed from", 2)
 	c.rule("U4", "environment variable names: SetEnvPrefix(prefix), AutomaticEnv, key replacer separator → EnvVarSeparator; the reporting side joins upper-cased elements with the same separator", 4)
 
@@ -836,6 +837,35 @@ func runC15(c *Ctx) {
 		})
 	}
 	c.Extra["prefix_operations"] = nPfx
+
+	// ---- U17 ----------------------------------------------------------------
+	// strings.TrimLeft / TrimRight / Trim take a *set of characters*, not a prefix: handed the environment prefix they go on
+	// removing every leading character of the name that occurs in the prefix ("app_port" loses "app_" and then the "p" of
+	// "port"). In package config a value that is not a constant is never used as such a set: the key a flag is registered
+	// under and the key its value is looked up under must be the same string.
+	nCut := 0
+	for _, f := range c.srcFuncs(cfgPkg) {
+		allInstrs(f, func(in ssa.Instruction) {
+			cl, ok := in.(*ssa.Call)
+			if !ok {
+				return
+			}
+			switch calleeFull(&cl.Call) {
+			case "strings.TrimLeft", "strings.TrimRight", "strings.Trim":
+			default:
+				return
+			}
+			if _, isConst := constString(cl.Call.Args[1]); isConst {
+				return
+			}
+			nCut++
+			c.FuncsSeen[fname(outermost(f))] = true
+			c.violate("U17", fname(outermost(f))+"/"+cl.Call.StaticCallee().Name()+"-with-a-variable-set", c.ipos(cl), "a value that is not a constant (a prefix, a name) is used as the *set of characters* of "+cl.Call.StaticCallee().Name()+": every leading character of the name that occurs in it is removed, not the prefix — bound with prefix 'app', the variable APP_PORT becomes the key '…ort' and the variable APP_ORT; the flag is never found under the key it is looked up by and an explicitly set flag loses to the environment, the file and the defaults")
+		})
+	}
+	if nCut == 0 {
+		c.info("U17", "config/no-variable-character-set", "-", "no strings.Trim / TrimLeft / TrimRight with a set of characters that is not a constant")
+	}
 }
 
 // c15EmptyTest: v is `p == ""` / `p != ""` (op), or the same on len(p) and 0.
